@@ -20,6 +20,8 @@ pub struct World {
     pub steps: u64,
     pub notes: Vec<&'static str>,
     pub history: Vec<String>,
+    /// connections whose broker-side task was dropped; the broker has not noticed yet
+    pub zombies: std::collections::BTreeSet<C>,
 }
 
 /// Failure of a lock-step comparison.
@@ -89,10 +91,11 @@ impl World {
             steps: 0,
             notes: vec![],
             history: vec![],
+            zombies: Default::default(),
         }
     }
 
-    fn run(&mut self) -> Result<(), Fail> {
+    pub fn run(&mut self) -> Result<(), Fail> {
         let r = self.bus.sim.run(STEP_BOUND);
         self.steps += r.steps;
         if r.exhausted {
@@ -107,7 +110,7 @@ impl World {
         Ok(())
     }
 
-    fn drain_all(&mut self) -> Observed {
+    pub fn drain_all(&mut self) -> Observed {
         let mut obs = Observed::new();
         for (i, c) in self.conns.iter_mut().enumerate() {
             let msgs = c.peer.drain();
@@ -173,6 +176,10 @@ impl World {
             return Err(Fail::new("model:expectation", format!("{}\nobserved: {}", p, render_obs(&obs))));
         }
         let mut expected: BTreeMap<C, Vec<Exp>> = eff.out.clone();
+        for z in &self.zombies {
+            // nothing can be observed on a connection whose task is gone
+            expected.remove(z);
+        }
         for c in &eff.shutdown {
             expected.entry(*c).or_default().push(Exp::Must(Message::Shutdown(Shutdown)));
         }
@@ -249,7 +256,7 @@ impl World {
         // connection liveness as seen by the peers
         for (i, conn) in self.conns.iter().enumerate() {
             let must_be_closed = !self.model.conns.get(&i).map(|x| x.alive).unwrap_or(false);
-            if conn.peer.has_transport() {
+            if conn.peer.has_transport() && !self.zombies.contains(&i) {
                 if must_be_closed && !conn.peer.disconnected {
                     return Err(Fail::new("conn:not-closed", format!("connection c{} must have been closed by the broker but its transport is still open", i)));
                 }
